@@ -43,7 +43,7 @@ def group_of(name_full):
 
 def work_theorem(args):
     """Runs in a forked worker: generate + discharge one theorem; returns plain data."""
-    tname, tier, outdir, kf_classes = args
+    tname, tier, outdir, kf_classes, seed = args
     from pyvc import verify, solve, replay, specs
     from pyvc.contracts import REGISTRY
     thm = [t for t in REGISTRY if t.name == tname][0]
@@ -64,7 +64,28 @@ def work_theorem(args):
         cli_timeout = 20 if tier == "quick" else 120
         quick_ms = 4000 if tier == "quick" else 15000
         rules = specs.unfold_rules(thm)
+        pending = [o for o in res.obligs if not getattr(o, "inline", None)]
+        native_hit = None
+        if pending and not kf_classes:
+            # runtime contract check of the real code first: a concrete failing input settles the theorem
+            ns = native_search(thm, 200 if tier == "quick" else 5000, seed)
+            if ns["found"]:
+                native_hit = ns
+                out["native_violation"] = {"inputs_repr": repr(ns["inputs"]), "result": ns["result"]}
+        cli_budget = 150.0 if tier == "quick" else 1200.0
         for o in res.obligs:
+            if native_hit is not None and not getattr(o, "inline", None):
+                out["obligations"].append({"name": o.name_full, "group": group_of(o.name_full), "status": "skipped",
+                                           "backend": "none (theorem already refuted by a native failing input)",
+                                           "secs": 0.0, "kind": o.meta.get("kind"), "clause": o.meta.get("clause"),
+                                           "case": o.meta.get("case"), "got": o.meta.get("got"), "want": o.meta.get("want")})
+                continue
+            if cli_budget <= 0 and not getattr(o, "inline", None):
+                out["obligations"].append({"name": o.name_full, "group": group_of(o.name_full), "status": "unknown",
+                                           "backend": "none (per-theorem solver budget exhausted)", "secs": 0.0,
+                                           "kind": o.meta.get("kind"), "clause": o.meta.get("clause"),
+                                           "case": o.meta.get("case"), "got": o.meta.get("got"), "want": o.meta.get("want")})
+                continue
             st = solve.discharge(o, quick_ms=quick_ms, cli_timeout=cli_timeout,
                                  outdir=os.path.join(outdir, "smt2"), extra_rules=rules,
                                  rounds=thm.options.get("axiom_rounds", 3), fuel=thm.options.get("fuel", 1))
@@ -77,6 +98,8 @@ def work_theorem(args):
                 rec["solver_detail"] = json.loads(json.dumps(st.detail, default=str)) if st.detail else None
             if st.model is not None:
                 rec["model_repr"] = repr(st.model)
+            if not getattr(o, "inline", None):
+                cli_budget -= st.secs
             out["obligations"].append(rec)
     except Exception as ex:  # noqa
         out["error"] = f"{type(ex).__name__}: {ex}\n{traceback.format_exc()[-1500:]}"
@@ -189,7 +212,7 @@ def run_property(prop, tier, seed, only=None, keep=False, jobs=None, replays_dir
     tasks = []
     for t in thms:
         kfc = [k["class"] for k in known if k.get("theorem") == t.name and k.get("class")]
-        tasks.append((t.name, tier, outdir, kfc))
+        tasks.append((t.name, tier, outdir, kfc, seed))
     ctx = mp.get_context("fork")
     # largest theorems first
     with ctx.Pool(jobs) as pool:
@@ -228,6 +251,15 @@ def run_property(prop, tier, seed, only=None, keep=False, jobs=None, replays_dir
                 fuc[q] = dict(zip(("file", "line_from", "line_to", "sha256"), r.span(f)))
             except Exception as ex:  # noqa
                 errors.append(f"{t.name}: unbound contract: {q} ({ex})")
+        if res.get("native_violation"):
+            nv = res["native_violation"]
+            cl = nv["result"]
+            gname = f"{t.name}.{cl.get('case')}.{cl.get('clause')}"
+            violations.append({"property": prop, "theorem": t.name, "obligation": gname, "group": gname,
+                               "status": "native", "inputs_repr": nv["inputs_repr"],
+                               "inputs": replay.jsonable(ast.literal_eval(nv["inputs_repr"])), "native": cl,
+                               "input_source": "runtime contract check of the real code (native search)",
+                               "body": t.body, "requires": t.requires})
         inlined |= set(res["notes"].get("inlined", []))
         natives |= set(res["notes"].get("native", []))
         unrolled.update(res["notes"].get("unrolled", {}))
@@ -249,6 +281,8 @@ def run_property(prop, tier, seed, only=None, keep=False, jobs=None, replays_dir
                 continue
             if o["status"] == "error":
                 errors.append(f"{o['name']}: solver disagreement {o.get('solver_detail')}")
+                continue
+            if o["status"] == "skipped":
                 continue
             # refuted or unknown: replay / native search on the real code
             inputs = None
